@@ -378,6 +378,13 @@ pub fn bar_hidden(_args: &[String]) -> String {
                     _ => {}
                 }
                 hist.push(format!("finish variant {}", fin));
+                // texts with tabs and a tab width that changes afterwards: the getters show the current expansion
+                if (a + b + fin) % 3 == 0 {
+                    steps.push(Box::new(|p| p.set_message("a\tb")));
+                    steps.push(Box::new(|p| p.set_prefix("p\tq")));
+                    steps.push(Box::new(|p| p.set_tab_width(3)));
+                    hist.push("set_message(a\\tb); set_prefix(p\\tq); set_tab_width(3)".into());
+                }
                 for s in steps.iter() {
                     s(&vis);
                     s(&hid);
